@@ -16,10 +16,11 @@ RELEVANT = {"species": {"logk", "lk", "z", "alk", "carbon", "co2", "h", "o", "gf
             "logk": {"log_k", "log_k_original", "lk", "name"}}
 
 
-def unit_record_init(fname, cls, par, twin=False):
+def unit_record_init(fname, cls, par, twin=False, relevant=None, uid=None):
     q = "Phreeqc::" + fname
     fn = A.find_function(ST, q)
-    r = U.new_unit("C01.%s.redefinition_starts_from_a_clean_record" % fname, ST, q, fn)
+    r = U.new_unit(uid or "C01.%s.redefinition_starts_from_a_clean_record" % fname, ST, q, fn)
+    REL = relevant if relevant is not None else RELEVANT[cls]
     fields = A.class_fields(HDR, cls)
     if twin:
         fields = fields + [("verif_phantom_member", "double")]
@@ -49,7 +50,7 @@ def unit_record_init(fname, cls, par, twin=False):
     skipped = []
     for name, ty in fields:
         ty = ty.strip()
-        if name not in RELEVANT[cls] and name != "verif_phantom_member":
+        if name not in REL and name != "verif_phantom_member":
             if name not in scalars and name not in arrays and not (ty.startswith("std::") or ty.startswith("cxx") or ty in ("CReaction",)):
                 skipped.append(name)
             continue
